@@ -129,7 +129,7 @@ pub fn random_fin(rng: &mut StdRng) -> FinCfg {
         resp10: rng.gen_bool(0.3),
         cl: ["absent", "zero", "n"][rng.gen_range(0..3)].into(),
         te: ["absent", "absent", "chunked"][rng.gen_range(0..3)].into(),
-        conn: ["absent", "close", "keepalive", "two"][rng.gen_range(0..4)].into(),
+        conn: ["absent", "close", "keepalive", "two", "proxyclose", "absent", "close", "keepalive"][rng.gen_range(0..8)].into(),
         loc: if (300..400).contains(&status) && rng.gen_bool(0.8) { Some("http://b.test/other".into()) } else { None },
         reason: ["OK", "", "Reason"][rng.gen_range(0..3)].into(),
     }
@@ -280,6 +280,20 @@ pub fn c09(o: &Opts, t: &mut Tracer) -> Value {
         let sig = random_history(t, &mut rng, "random-history");
         t.sig(sig);
     }
+    // directed: every early message of the server's repertoire, straight through the exchange
+    let mut k = 0usize;
+    for kind in ["100", "refuseBare", "refuseFields", "refuseFieldsClose"] {
+        for variant in 0..16usize {
+            for method in ["POST", "PUT"] {
+                k += 1;
+                let rq = RqCfg { method: method.into(), ver10: false, expect: true, connclose: k % 5 == 0, despite: false, framing: ["default", "cl2", "chunked"][k % 3].into(), conn_other: None, expect_extra: k % 7 == 0 };
+                let fin = FinCfg { status: [200u16, 201, 404, 302][k % 4], resp10: false, cl: "zero".into(), te: "absent".into(), conn: "absent".into(), loc: if k % 4 == 3 { Some("/next".into()) } else { None }, reason: "OK".into() };
+                t.sig(format!("handshake/{}/{}/{}", kind, variant, method));
+                run_to_cleanup(t, rq, Some(EarlyMsg::new(kind, variant)), false, &fin, variant, "directed-handshake");
+            }
+        }
+    }
+    t.class("c09:every-early-message");
     json!({"scripts": n, "model_drift": drift, "random_histories": nrand})
 }
 
@@ -353,7 +367,7 @@ pub fn c10(o: &Opts, t: &mut Tracer) -> Value {
     let handshakes = ["none", "100", "timeout", "late100", "refuseBare", "refuseFields", "refuseFieldsClose", "stray100"];
     let statuses = [200u16, 204, 302, 304, 403, 205, 201, 500, 417];
     let framings = [("absent", "absent"), ("zero", "absent"), ("n", "absent"), ("absent", "chunked"), ("n", "chunked")];
-    let conns = ["absent", "close", "keepalive", "two"];
+    let conns = ["absent", "close", "keepalive", "two", "proxyclose"];
     for ver10 in [false, true] {
         for (rci, rconn) in ["absent", "close", "keepalive", "two"].iter().enumerate() {
             for (mi, m) in methods.iter().enumerate() {
@@ -500,7 +514,16 @@ pub fn c11(o: &Opts, t: &mut Tracer) -> Value {
                                 continue;
                             }
                             let cls = classify_prefix(&early, p);
-                            consumed = sim.try_read_100_bytes(t, cls, &early.bytes[..p], total);
+                            if cls == "bare100" && (variant + give_up_at + round) % 3 == 1 {
+                                // the first bytes of what the server sends next are already behind the interim response
+                                let mut w = early.bytes.clone();
+                                let nxt = fin.head();
+                                w.extend(&nxt[..(1 + (give_up_at + variant) % nxt.len())]);
+                                consumed = sim.try_read_100_bytes(t, cls, &w, total);
+                                t.class("c11:bytes-behind-the-100");
+                            } else {
+                                consumed = sim.try_read_100_bytes(t, cls, &early.bytes[..p], total);
+                            }
                             t.class(&format!("c11:{}", cls));
                         }
                         let _ = consumed;
